@@ -380,7 +380,7 @@ Definition check_lookup_constraints (cd : common_data) (wires : list Fp2) (lz lz
   let looking := map (fun s => nth2 wires (2 * s) + da * nth2 wires (2 * s + 1)) (seq 0 num_lu) in
   let lookup_combos := map (fun s => nth2 wires (3 * s) + db * nth2 wires (3 * s + 1)) (seq 0 num_lut) in
   let c_last := nth2 lsel 3 * nth2 zx (num_sldc - 1) in
-  let c_init_sum := nth2 lsel 2 * nth2 zx 0 in
+  let c_init_sum := nth2 lsel 2 * nth2 zx (num_sldc - 1) in
   let c_init_re := nth2 lsel 2 * z_re in
   let ends := map (fun r =>
                      let lut := nth (r - 4) (luts cd) [] in
